@@ -626,6 +626,9 @@ func C03(tier rt.Tier) int {
 		runTxLong(rep, txConfig{name: "long-child", initial: map[string]string{"0a1b": "p", "0b22": "p"}, paths: pfPaths[:4], vals: []string{"x", "y"}, children: 1, opsPerKid: 1 << 20, directOps: false, depth: 1}, reps, time.Now().Add(per))
 		runTxLong(rep, txConfig{name: "long-child-nested-pnodedb", persistent: true, initial: map[string]string{"aa": "p", "aaab": "p"}, paths: nested[:4], vals: []string{"x", "y"}, children: 1, opsPerKid: 1 << 20, directOps: false, depth: 1}, reps/2, time.Now().Add(per))
 	}
+	if !rt.SubRun && (rt.Replay == nil || rt.Replay.Run == "deep-chain") {
+		deepChains(rep)
+	}
 	rep.RunVariant()
 	rep.Set("rule", "BFS over all event histories {open child, insert/delete in a child or directly in the block trie, merge child (MergeMPTChanges, in one run MergeChanges(child.GetChanges()), + txn-cache commit), discard child}; children are LevelNodeDB(mem, parent.db) tries sharing one StateCache/BlockCache; after every event the parent's deep fingerprint (root, pending changes with re-encoded nodes, deletes, every node of its writable store re-hashed) must be unchanged unless the event is an accepted merge or a direct parent op; merges of stale children must be rejected; every non-stale view is compared with its map model")
 	rep.Assumption("the view of a child whose parent moved on after it was opened is not checked (the property only demands that its merge is rejected and the parent stays untouched)")
@@ -653,4 +656,81 @@ func lineDiff(a, b string) string {
 		}
 	}
 	return strings.Join(out, " ; ")
+}
+
+// deepChains: "every tree of parent/child tries" includes deep ones. A chain of generations, each opened on the one
+// before it and adding one path: every generation reads its own and all its ancestors' content; then the chain is
+// merged back level by level (deepest first), every trie on the way ending with the content of everything below it,
+// and a sibling opened at the top before the merges is rejected as stale afterwards.
+func deepChains(rep *rt.Report) {
+	n := 0
+	for _, depth := range []int{1, 2, 3, 7, 8, 15, 16, 17, 31, 32, 33, 34, 48, 63, 64, 65, 100, 130} {
+		n++
+		fail := func() (fail string) {
+			defer func() {
+				if r := recover(); r != nil {
+					fail = fmt.Sprintf("panic: %v", r)
+				}
+			}()
+			base := util.NewMemoryNodeDB()
+			top := util.NewMerklePatriciaTrie(util.NewLevelNodeDB(util.NewMemoryNodeDB(), base, false), 2, nil, statecache.NewEmpty())
+			if _, err := top.Insert(util.Path("ffff"), val("top")); err != nil {
+				return err.Error()
+			}
+			model := map[string]string{"ffff": "top"}
+			paths := []string{"ffff", "eeee"}
+			for i := 0; i < depth; i++ {
+				paths = append(paths, fmt.Sprintf("%04x", i*37))
+			}
+			sibling := util.NewMerklePatriciaTrie(util.NewLevelNodeDB(util.NewMemoryNodeDB(), top.GetNodeDB(), false), 2, top.GetRoot(), statecache.NewEmpty())
+			if _, err := sibling.Insert(util.Path("eeee"), val("sibling")); err != nil {
+				return err.Error()
+			}
+			chain := []*util.MerklePatriciaTrie{top}
+			models := []map[string]string{copyMap(model)}
+			for i := 0; i < depth; i++ {
+				parent := chain[len(chain)-1]
+				t := util.NewMerklePatriciaTrie(util.NewLevelNodeDB(util.NewMemoryNodeDB(), parent.GetNodeDB(), false), 2, parent.GetRoot(), statecache.NewEmpty())
+				p := fmt.Sprintf("%04x", i*37)
+				if _, err := t.Insert(util.Path(p), val("g"+p)); err != nil {
+					return fmt.Sprintf("generation %d: Insert(%q): %v", i+1, p, err)
+				}
+				model[p] = "g" + p
+				if f := viewOf(t, model, paths); f != "" {
+					return fmt.Sprintf("generation %d of %d (opened on generation %d): %s", i+1, depth, i, f)
+				}
+				chain = append(chain, t)
+				models = append(models, copyMap(model))
+			}
+			for i := range chain {
+				if f := viewOf(chain[i], models[i], paths); f != "" {
+					return fmt.Sprintf("generation %d of %d after its descendants were built: %s", i, depth, f)
+				}
+			}
+			for i := depth; i >= 1; i-- {
+				if err := chain[i-1].MergeMPTChanges(chain[i]); err != nil {
+					return fmt.Sprintf("merge of generation %d into generation %d: %v", i, i-1, err)
+				}
+				if f := viewOf(chain[i-1], model, paths); f != "" {
+					return fmt.Sprintf("generation %d after the merge of everything below it: %s", i-1, f)
+				}
+			}
+			if err := top.MergeMPTChanges(sibling); err == nil {
+				return "a sibling opened on the top trie before the chain was merged into it was accepted afterwards (stale)"
+			}
+			if f := viewOf(top, model, paths); f != "" {
+				return "top trie after the rejected merge of the stale sibling: " + f
+			}
+			return ""
+		}()
+		if fail != "" {
+			rep.Violate(fmt.Sprintf("[deep-chain] %d generations of child tries: %s", depth, fail), map[string]any{"run": "deep-chain", "depth": depth})
+			break
+		}
+	}
+	rep.Add("states", n)
+	rep.Add("transitions", n)
+	rep.Add("traces_validated_against_impl", n)
+	rep.Add("evaluations", n)
+	rep.Sub["deep-chain"] = map[string]any{"rule": "chains of 1..130 generations of child tries (each opened on the one before, one insert each): every generation reads its own and its ancestors' content; merged back deepest first, every trie ends with the content of everything below it; a sibling opened at the top before the merges is rejected as stale", "cases": n}
 }
